@@ -276,24 +276,49 @@ def check(ctx, fx):
     for cls in TYPES:
         for f in sorted(fx.fns(cls + "::set_host_or_hostname"), key=lambda x: x["key"]):
             inst = "<true>" if "<true>" in f["key"] else "<false>"
-            conds = set(atomic_conds(f["blocks"]))
-            keep = set()
+            import collections
+            conds = list(atomic_conds(f["blocks"]))
+            keep = collections.Counter()
             for c in conds:
                 if c in ("has_opaque_path", "HAS_PORT", "has_credentials()", "is_special()", "!is_special()", "BUFFER_EMPTY",
                          "host_view.empty()", "new_host.empty()", "found_colon", "(type != ada::scheme::FILE)", "succeeded",
                          "!succeeded"):
-                    keep.add(c)
+                    keep[c] += 1
             sk[(cls, inst)] = (keep, f)
     want3 = {"has_opaque_path", "HAS_PORT", "has_credentials()", "is_special()", "BUFFER_EMPTY", "host_view.empty()",
              "new_host.empty()", "found_colon", "(type != ada::scheme::FILE)"}
     for inst in ("<true>", "<false>"):
         a, fa = sk[("ada::url", inst)]
         b, fb = sk[("ada::url_aggregator", inst)]
-        ctx.check("I3", "set_host_or_hostname%s: both types test the same refusal conditions" % inst, a == b,
-                  ", ".join(sorted(a)), "ada::url tests %s, ada::url_aggregator tests %s" % (sorted(a - b), sorted(b - a)),
+        same = a == b
+        if not same:
+            # a local that is merely *called* differently in one copy (the name does not exist in the other copy at all) is
+            # not a difference; a test that moved to another variable both copies have is
+            def locs(f):
+                return {v["name"] for bb in f["blocks"] for st in bb["stmts"] if st["k"] == "decl" for v in st["vars"]} | \
+                    {p_["name"] for p_ in f.get("params", [])}
+            la, lb = locs(fa), locs(fb)
+            da, db = sorted((a - b).elements()), sorted((b - a).elements())
+            ren = {}
+            ok_ren = len(da) == len(db)
+            for x, y in zip(da, db):
+                ia, ib = re.findall(r"[A-Za-z_]\w*", x), re.findall(r"[A-Za-z_]\w*", y)
+                if len(ia) != len(ib):
+                    ok_ren = False
+                    break
+                for u, v in zip(ia, ib):
+                    if u == v:
+                        continue
+                    if u in lb or v in la or ren.setdefault(u, v) != v:
+                        ok_ren = False
+            same = ok_ren and bool(da)
+        ctx.check("I3", "set_host_or_hostname%s: both types test the same refusal conditions, each the same number of times" % inst,
+                  same, ", ".join("%s x%d" % kv for kv in sorted(a.items())),
+                  "ada::url tests %s more often, ada::url_aggregator tests %s more often: a refusal of one copy looks at a different "
+                  "value than its twin" % (sorted((a - b).elements()), sorted((b - a).elements())),
                   where=fb["loc"].replace("/repo/", ""))
         for cls, (k, f) in (("ada::url", (a, fa)), ("ada::url_aggregator", (b, fb))):
-            miss = want3 - k
+            miss = want3 - set(k)
             ctx.check("I3", "%s::set_host_or_hostname%s has every refusal condition" % (cls, inst), not miss,
                       "%d conditions" % len(k), "missing refusal condition(s): %s" % sorted(miss),
                       where=f["loc"].replace("/repo/", ""))
